@@ -50,6 +50,21 @@ def run(tier, rep, only=None):
         rep.violations.append({"obligation": "import(cl05.models)", "inputs": {"spec": "T_resp"}, "detail": "generated models do not import: " + (p.stderr.strip().splitlines() or ["?"])[-1][:300]})
         return
     run_harness(rep, HARNESS, tier, [0, 1], only, env_extra={"VERIF_GEN_ROOT": root})
+    # "Streaming responses yield, in order, exactly the events the server sent": the event-stream / NDJSON helpers the
+    # generated streaming methods delegate to, against the reference event lists of props/c18.py (symx; json.loads is C
+    # code, so this half cannot run under CrossHair)
+    from props import c18
+    from symx import explore
+
+    sp = [s for s in c18.specs(tier) if s[1] in ("mk_ref", "mk_ndref")]
+    if only:
+        sp = [s for s in sp if only in explore.build(s).name]
+    if sp:
+        res = explore.run_all(sp, split=32, slice_s=3.0, log=lambda m: print("[c05/streams]", m, flush=True))
+        for spec in sp:
+            ob = explore.build(spec)
+            rep.add_symx(res[ob.name], functions=ob.functions, bounds=ob.bounds)
+        rep.stubs.append("stream helpers: httpx.Response -> stub over the real (instrumented) httpx LineDecoder; json.loads -> identity marker (as in C18)")
 
 
 def replay(path):
